@@ -290,8 +290,8 @@ fn gen_off(c: &mut Ctx) -> i32 {
 }
 fn gen_frac(c: &mut Ctx) -> u32 {
     match c.rng.below(5) {
-        0 => c.rng.below(1_000_000_000) as u32,
-        1 => 1_000_000_000 + c.rng.below(1_000_000_000) as u32,
+        0 => c.rng.nanos(),
+        1 => 1_000_000_000 + c.rng.nanos(),
         2 => 0,
         _ => *c.rng.pick(&[0u32, 1, 500_000_000, 999_999_999, 1_000_000_000, 1_000_000_001, 1_999_999_999]),
     }
